@@ -831,8 +831,8 @@ def preimport():
 SUBS = [
     Sub("machine", lambda case, ctx: run_history(C09Harness, case, ctx),
         machine=lambda ctx, tier, deadline: make_machine(C09Harness, inits(tier), RULES, ctx, deadline),
-        budget={"quick": 3200, "thorough": 10000}, steps={"quick": 20, "thorough": 50},
+        budget={"quick": 6400, "thorough": 10000}, steps={"quick": 20, "thorough": 50},
         shrink=False, minimize=machine_min, weight=3.0),
     Sub("two_opt_all", execute_all_moves, strategy=lambda tier: all_moves_cases(tier),
-        budget={"quick": 4800, "thorough": 20000}, shards=16, shrink=True, minimize=None),
+        budget={"quick": 9600, "thorough": 20000}, shards=16, shrink=True, minimize=None),
 ]
